@@ -3,10 +3,13 @@ open TdModel TdModel.C31
 
 /-! Line protocol (names are opaque tokens — the harness sends hex of the base name):
 
-* `crash <path> <newhex> <ents> <op>…` → `atomic=<0|1> fresh=<0|1> durable=<0|1> n=<k> <tok>…`, one token per crash state in
+* `crash <path> <newhex> <ents> <op>…` → `atomic= fresh= durable= disciplined= pubs=<classes of the published contents|-> n=<k> <tok>…`, one token per crash state in
   order: `<class of readCur>/<classes of plReads joined by +>/<listing>`
 * `final <path> <newhex> <ents> <op>…` → one token for the final state
-* `shape <path> <newhex> <ents> <op>…` → `atomic=<0|1> fresh=<0|1> durable=<0|1>`
+* `shape <path> <newhex> <ents> <op>…` → the five flags only
+* `abort <fd> <dfd> <tmp> <path> <chunkhex,…> <k>` → predicted trace when the k-th call fails
+* `segments <path> <new0,new1,…> <ents> <op>…` → per save of a multi-save trace which content it durably replaces (`x` = none)
+`<newhex>` may be a comma-separated list of acceptable new contents (classes `new`, `new1`, …)
 * `plreads <idx> <path> <newhex> <ents> <op>…` → the distinct power-loss contents of `path` in crash state `idx`
 * `impl <fd> <dfd> <tmp> <path> <chunkhex,…>` → the trace predicted from the regenerated call list
 
@@ -50,12 +53,20 @@ def parseEnts (s : String) : Option (List (String × Bytes)) :=
     | [n, h] => do pure (n, ← ofHex h)
     | _ => none
 
-def classify (old : Option Bytes) (new : Bytes) (r : Option Bytes) : String :=
-  if r == old then "old" else if r == some new then "new" else if r == none then "none" else "other"
+def newTag (k : Nat) : String := if k = 0 then "new" else s!"new{k}"
 
-def token (s : FS) (path : String) (old : Option Bytes) (new : Bytes) : String :=
+/-- `news` = the acceptable new contents (one per concurrent / successive save). -/
+def classify (old : Option Bytes) (news : List Bytes) (r : Option Bytes) : String :=
+  if r == old then "old"
+  else match r with
+    | none => "none"
+    | some b => match news.findIdx? (· == b) with
+      | some k => newTag k
+      | none => "other"
+
+def token (s : FS) (path : String) (old : Option Bytes) (new : List Bytes) : String :=
   let cs := (plReads s path).map (classify old new)
-  let pl := ["old", "new", "none", "other"].filter cs.contains
+  let pl := (["old"] ++ (List.range new.length).map newTag ++ ["none", "other"]).filter cs.contains
   let l := listing s
   classify old new (readCur s path) ++ "/" ++ "+".intercalate pl ++ "/" ++ (if l.isEmpty then "-" else l)
 
@@ -66,16 +77,33 @@ def freshTmp (tr : List Op) (s0 : FS) : Bool :=
 
 structure Req where
   path : String
-  new : Bytes
+  news : List Bytes
   s0 : FS
   tr : List Op
 
+def Req.new (q : Req) : Bytes := q.news.headD []
+
 def parseReq : List String → Option Req
   | path :: new :: ents :: ops => do
-    pure { path := path, new := ← ofHex new, s0 := initFS (← parseEnts ents), tr := ← ops.mapM parseOp }
+    pure { path := path, news := ← (new.splitOn ",").mapM ofHex, s0 := initFS (← parseEnts ents), tr := ← ops.mapM parseOp }
   | _ => none
 
 def b01 (b : Bool) : String := if b then "1" else "0"
+
+def flags (q : Req) : List String :=
+  let pubs := (published q.path q.s0 q.tr).map fun c => classify none q.news (some c)
+  ["atomic=" ++ b01 (isAtomicReplace q.tr q.path q.new), "fresh=" ++ b01 (freshTmp q.tr q.s0),
+   "durable=" ++ b01 (isDurableReplace q.tr q.path q.new), "disciplined=" ++ b01 (disciplined q.path q.s0 q.tr),
+   "pubs=" ++ (if pubs.isEmpty then "-" else "+".intercalate pubs)]
+
+/-- Saves of a multi-save trace: a new one starts at every file `open`. -/
+def splitSaves (tr : List Op) : List (List Op) :=
+  let step := fun (acc : List (List Op)) (op : Op) =>
+    match op, acc with
+    | .openF .., _ => acc ++ [[op]]
+    | _, [] => [[op]]
+    | _, _ => acc.dropLast ++ [acc.getLast! ++ [op]]
+  tr.foldl step []
 
 def handle (line : String) : String :=
   match words line with
@@ -84,18 +112,15 @@ def handle (line : String) : String :=
     | some q =>
       let old := readCur q.s0 q.path
       let sts := crashStates q.tr q.s0
-      " ".intercalate (["atomic=" ++ b01 (isAtomicReplace q.tr q.path q.new), "fresh=" ++ b01 (freshTmp q.tr q.s0),
-        "durable=" ++ b01 (isDurableReplace q.tr q.path q.new),
-        s!"n={sts.length}"] ++ sts.map fun s => token s q.path old q.new)
+      " ".intercalate (flags q ++ [s!"n={sts.length}"] ++ sts.map fun s => token s q.path old q.news)
     | none => "bad-op"
   | "shape" :: rest =>
     match parseReq rest with
-    | some q => "atomic=" ++ b01 (isAtomicReplace q.tr q.path q.new) ++ " fresh=" ++ b01 (freshTmp q.tr q.s0) ++
-        " durable=" ++ b01 (isDurableReplace q.tr q.path q.new)
+    | some q => " ".intercalate (flags q)
     | none => "bad-op"
   | "final" :: rest =>
     match parseReq rest with
-    | some q => token (run q.tr q.s0) q.path (readCur q.s0 q.path) q.new
+    | some q => token (run q.tr q.s0) q.path (readCur q.s0 q.path) q.news
     | none => "bad-op"
   | "plreads" :: idx :: rest =>
     match idx.toNat?, parseReq rest with
@@ -107,6 +132,24 @@ def handle (line : String) : String :=
           | some b => toHex b)
       | none => "bad-op"
     | _, _ => "bad-op"
+  | ["abort", fd, dfd, tmp, path, chunks, k] =>
+    match fd.toNat?, dfd.toNat?, (chunks.splitOn ",").mapM ofHex, k.toNat? with
+    | some fd, some dfd, some cs, some k =>
+      let tr := implAbort fd dfd tmp path cs k
+      if tr.isEmpty then "-" else " ".intercalate (tr.map showOp)
+    | _, _, _, _ => "bad-op"
+  | "segments" :: rest =>
+    match parseReq rest with
+    | some q =>
+      -- replay save after save: each segment must be a durable atomic replacement of one of the contents
+      let step := fun (acc : FS × List String) (seg : List Op) =>
+        let k := q.news.findIdx? fun n => isDurableReplace seg q.path n && freshTmp seg acc.1
+        (run seg acc.1, acc.2 ++ [match k with
+          | some k => newTag k
+          | none => "x"])
+      let r := (splitSaves q.tr).foldl step (q.s0, [])
+      if r.2.isEmpty then "-" else " ".intercalate r.2
+    | none => "bad-op"
   | ["impl", fd, dfd, tmp, path, chunks] =>
     match fd.toNat?, dfd.toNat?, (chunks.splitOn ",").mapM ofHex with
     | some fd, some dfd, some cs => " ".intercalate ((implTrace fd dfd tmp path cs).map showOp)
